@@ -324,6 +324,13 @@ def run():
   _, ltree = common.parse_source(LIST)
   _, otree = common.parse_source(OBJECT)
   dict_comb, eq_exact, lt_same = extract_hash(dtree, ltree, otree)
+  # base.sym_hash: are plain list / tuple / dict hashed structurally (fix F16)?
+  hsrc = ast.unparse(common.find_func(tree, 'sym_hash'))
+  plain = [k for k in ('list', 'tuple', 'dict') if f'isinstance(x, {k})' in hsrc]
+  if plain and not ('sym_hash((Symbolic.ListType, tuple([sym_hash(e) for e in x])))' in hsrc
+                    and 'hash(tuple([sym_hash(e) for e in x]))' in hsrc
+                    and 'sym_hash((Symbolic.DictType, frozenset(((k, sym_hash(v)) for k, v in x.items() if v != pg_typing.MISSING_VALUE))))' in hsrc):
+    raise TranslatorError('base.sym_hash: plain-container branches have an unexpected shape')
 
   rank = {r: s for r, s, _ in rows}
   L = []
@@ -349,6 +356,7 @@ def run():
   L.append('def gtIsSwappedLt : Bool := ' + common.lean_bool(gt_ok))
   L.append('def neIsNotEq : Bool := ' + common.lean_bool(ne_ok))
   L.append('def dictHashComb : String := ' + common.lean_str(dict_comb))
+  L.append('def symHashPlain : List String := ' + common.lean_list([common.lean_str(k) for k in plain]))
   L.append('def objectEqExactType : Bool := ' + common.lean_bool(eq_exact))
   L.append('def objectLtFields : String := ' + common.lean_str(lt_same))
   L.append('')
@@ -358,7 +366,7 @@ def run():
       'sources': {p: common.sha(p) for p in (BASE, DICT, LIST, OBJECT)},
       'type_order_rows': [{'row': r, 'rank': s, 'line': ln} for r, s, ln in rows],
       'lt': ltf, 'gt_is_swapped_lt': gt_ok, 'ne_is_not_eq': ne_ok, 'dict_hash_comb': dict_comb,
-      'object_eq_exact_type': eq_exact, 'object_lt_same_class_only': lt_same,
+      'object_eq_exact_type': eq_exact, 'sym_hash_plain': plain, 'object_lt_same_class_only': lt_same,
   }
   changed = common.write_gen('C06Order', '\n'.join(L), sidecar)
   return {'changed': changed, 'sidecar': sidecar}
